@@ -240,7 +240,7 @@ def run(rep):
                          "unconditional set, add_if_new, remove_if_equals (conditional / unconditional), pack_refs, read, allkeys, as_dict, "
                          "WorkTree.commit}, from initial states {absent, loose, packed, loose + stale packed, loose behind "
                          "HEAD}; every interleaving at the granularity of os.open / builtins.open / os.replace / os.remove / os.stat / "
-                         "os.scandir ... with at most 2 pre-emptions (4 in thorough), capped per scenario; each history (invocation / "
+                         "os.scandir ... with at most 2 pre-emptions (3 in thorough), capped per scenario; each history (invocation / "
                          "response positions, results, final value) is checked for linearizability against the atomic map by brute force; "
                          "commit scenarios: every commit reported successful is an ancestor of the final tip; for loose-only scenarios the "
                          "model's steps (read, lock, check under lock, write, unlock) are read off the real trace and the model is run on "
@@ -250,10 +250,10 @@ def run(rep):
     impl = Impl(PROP, case_timeout=1200)
     model = Model(PROP)
     scen = scenarios(thorough)
-    reqs = [{"fn": "explore", "init": INITS[i], "actors": a, "preempt": 2 if not thorough else 4, "max_runs": 220 if not thorough else 20000} for i, a in scen]
+    reqs = [{"fn": "explore", "init": INITS[i], "actors": a, "preempt": 2 if not thorough else 3, "max_runs": 220 if not thorough else 2500} for i, a in scen]
     for q in reqs:
         if sum(1 for a in q["actors"] if a[0] == "pack") >= 2 and len(q["actors"]) == 3:
-            q.update(preempt=1, max_runs=3000 if not thorough else 20000)
+            q.update(preempt=1, max_runs=3000 if not thorough else 12000)
     total, unclean = 0, {}
     lines, plan = [], []
     packed_cases = []
